@@ -31,7 +31,7 @@ def demo_cmd(path):
         return env + "timeout 1800 sh %s %s" % (path, wt)
     if path.endswith(".c"):
         exe = "/tmp/seed-demo-%s" % os.getpid()
-        return ("cc -O1 -I%s/include -o %s %s -L%s/_build -Wl,-rpath,%s/_build -lchibi-scheme -lm -ldl -lpthread && " % (wt, exe, path, wt, wt)) + env + "timeout 900 " + exe
+        return ("cc -O1 -I%s/include -I%s/_build/include -o %s %s -L%s/_build -Wl,-rpath,%s/_build -lchibi-scheme -lm -ldl -lpthread && " % (wt, wt, exe, path, wt, wt)) + env + "timeout 900 " + exe
     raise SystemExit("unknown demo type " + path)
 
 def run_demo(path):
